@@ -27,7 +27,7 @@ ASSUMPTIONS = [
     'D=1 and D>1 are different compiled programs, so equality across D is '
     'checked to a rounding tolerance that grows with the condition number; '
     'equality across replicas of one run is checked bitwise']
-EXPECTED_PROBES = ['N_mod_D_nonzero', 'rescale', 'pmap_crosscheck',
+EXPECTED_PROBES = ['fault_injected', 'N_mod_D_nonzero', 'rescale', 'pmap_crosscheck',
                    'sharded_declared_counts', 'quantized_replicas',
                    'compressed_replicas', 'D_gt_8', 'fd_replicas']
 
@@ -70,8 +70,15 @@ def generate(seed, idx, tier):
       D = 2 + (idx // 3) % 12     # every D in 2..13 is visited by index
     D2 = 1
   T = rng.randrange(5, 11) if tier == 'quick' else rng.randrange(6, 21)
-  ops = common.gen_history(rng, cfg, len(tree), T, 0.0, restores=True,
-                           rejit=False, scale_jumps=0.25)
+  faulted = rng.random() < 0.35 and rep != 'fd'
+  ops = common.gen_history(rng, cfg, len(tree), T, 0.15 if faulted else 0.0,
+                           fault_kinds=['nan', 'pinf', 'huge', 'zero'],
+                           restores=True, rejit=False, scale_jumps=0.25)
+  if faulted:
+    # a fault hits one leaf only, so that healthy leaves remain to compare
+    for op in ops:
+      if op.get('fault') and len(tree) > 1:
+        op['fault']['leaf'] = rng.randrange(len(tree))
   # RESCALE mid-run (vmap only)
   if mode == 'vmap' and rng.random() < 0.4:
     pos = rng.randrange(1, len(ops))
@@ -79,7 +86,8 @@ def generate(seed, idx, tier):
     ops.insert(pos + 1, {'op': 'RESCALE', 'D': pick(rng, [1, 2, 3, 5, 7]),
                          'which': -1})
   pm = mode == 'vmap' and D <= 8 and rng.random() < 0.2
-  return {'system': 'ds', 'class': rep, 'x64': x64, 'mode': mode, 'D': D,
+  return {'system': 'ds', 'class': rep + ('_faulted' if faulted else ''),
+          'rep': rep, 'x64': x64, 'mode': mode, 'D': D,
           'D2': D2, 'mesh': 1, 'config': cfg, 'tree': tree,
           'lr': ds_gen.gen_lr(rng), 'param_seed': rng.randrange(1000),
           'ops': ops, 'pmap_check': pm, 'n_stats': N}
@@ -105,8 +113,9 @@ def run(plan):
   shapes = [tuple(s) for s in plan['tree']]
   params = make_params(shapes, plan.get('param_seed', 0))
   mode = plan['mode']
-  rep = plan.get('class', mode)
+  rep = plan.get('rep', plan.get('class', mode))
   D, D2 = int(plan['D']), int(plan.get('D2', 1))
+  poisoned = set()
   N = plan.get('n_stats', 0)
   if mode == 'sharded':
     pa = dict(plan, mesh=_mesh_for(N, D))
@@ -140,7 +149,11 @@ def run(plan):
     kind = op['op']
     ctx.saw_op(kind)
     if kind == 'STEP':
-      grads, _ = make_grads(shapes, op)
+      grads, pnow = make_grads(shapes, op)
+      poisoned |= pnow
+      if op.get('fault'):
+        ctx.faults[op['fault']['kind']] += 1
+        ctx.probe('fault_injected')
       pa_, pb_ = named_leaves(sa), named_leaves(sb)
       t = va.clock(pa_)
       ua, sa = A.update(grads, sa, params)
@@ -157,7 +170,7 @@ def run(plan):
         for name, arrs in (('update', {str(i): x for i, x in enumerate(upa)}),
                            ('state', na)):
           for k, v in arrs.items():
-            ok = all(v[r].tobytes() == v[0].tobytes() for r in range(1, v.shape[0]))
+            ok = all(_same_bytes(v[r], v[0], np) for r in range(1, v.shape[0]))
             ctx.ev('replica_equal', 'ok' if ok else 'violation')
             if not ok:
               ctx.violate('replica_equal', rep, 'replicas_differ_' + name,
@@ -168,16 +181,18 @@ def run(plan):
         upa0, upb0 = upa, upb
       # (b) agreement with the single-device twin
       _compare_worlds(ctx, rep, t, Dn, va, vb, na, nb, upa0, upb0, cfg, uc,
-                      A, grads, params, pa_, np, ref, orc, category)
+                      A, grads, params, pa_, np, ref, orc, category,
+                      poisoned=poisoned)
       if P is not None:
         up_, sp = P.update(grads, sp, params)
         npm = named_leaves(sp)
         upp = [x[0] for x in P.updates_np(up_)]
         vp = View(P.cfg, P.shapes, P.mode)
         _compare_worlds(ctx, rep + '_pmap', t, Dn, va, vp, na, npm, upa0, upp,
-                        cfg, uc, A, grads, params, pa_, np, ref, orc, category)
+                        cfg, uc, A, grads, params, pa_, np, ref, orc, category,
+                        poisoned=poisoned)
         for k, v in npm.items():
-          if not all(v[r].tobytes() == v[0].tobytes()
+          if not all(_same_bytes(v[r], v[0], np)
                      for r in range(1, v.shape[0])):
             ctx.violate('replica_equal', rep + '_pmap', 'replicas_differ_state',
                         tick=t, leaf=k, D=Dn)
@@ -189,16 +204,18 @@ def run(plan):
     elif kind == 'CHECKPOINT':
       t = va.clock(named_leaves(sa))
       durable[t] = (A.to_bytes(sa), B.to_bytes(sb), A.D,
-                    P.to_bytes(sp) if P else None)
+                    P.to_bytes(sp) if P else None, set(poisoned))
     elif kind in ('CRASH_RESTORE', 'RESCALE'):
       if not durable or mode == 'sharded' and kind == 'RESCALE':
         continue
       keys = sorted(durable)
       k = keys[int(op.get('which', -1)) % len(keys)]
-      da, db, Dold, dp = durable[k]
+      da, db, Dold, dp, pz = durable[k]
+      poisoned = set(pz)
       A0 = DSWorld(plan, D=Dold) if mode != 'sharded' else DSWorld(
           dict(plan, mesh=_mesh_for(N, D)), D=D)
       st0 = A0.from_bytes(A0.init(params), da)
+      # checkpoints are only taken on healthy states in this property
       if kind == 'RESCALE':
         A = DSWorld(plan, D=int(op['D']))
         sa = A.replicate(A0.first_replica(st0))
@@ -219,18 +236,34 @@ def run(plan):
   return ctx.result()
 
 
+def _same_bytes(a, b, np):
+  if a.dtype.kind == 'f' and (np.isnan(a).any() or np.isnan(b).any()):
+    return np.array_equal(a, b, equal_nan=True)
+  return a.tobytes() == b.tobytes()
+
+
 def _compare_worlds(ctx, rep, t, D, va, vb, na, nb, upa, upb, cfg, uc, A,
-                    grads, params, prev_a, np, ref, orc, category):
+                    grads, params, prev_a, np, ref, orc, category,
+                    poisoned=()):
   u32 = 2.0 ** -24
   thr = float(cfg.get('inverse_failure_threshold', 0.1))
   for i, leaf in enumerate(va.layout['leaves']):
+    if i in poisoned:
+      # a leaf the plan fed non-finite / out-of-range values: its numbers are
+      # not compared (healthy leaves next to it are)
+      ctx.ev('d_invariant', 'muted')
+      continue
     # statistics and first-order state: same arithmetic on every replica count
     ma, mb = va.model_state(na, i), vb.model_state(nb, i)
     for name in ('diag', 'mom', 'dmom'):
       x, y = ma[name], mb[name]
       if x is None or np.ndim(x) == 0 and name == 'diag':
         continue
-      _close(ctx, 'd_invariant', rep, t, D, i, name, x, y, 2e-3, np)
+      # int8 momenta: the two worlds may round to neighbouring buckets
+      qtol = 1.5 / 127 if (cfg.get('best_effort_memory_usage_reduction') and
+                           name in ('mom', 'dmom') and
+                           len(leaf['shape']) > 1) else 0.0
+      _close(ctx, 'd_invariant', rep, t, D, i, name, x, y, 2e-3 + qtol, np)
     amp_bad = False
     for j, (bi, ax, d) in enumerate(leaf['stats']):
       Sa, Sb = ma['stats'][j], mb['stats'][j]
@@ -324,7 +357,9 @@ def _compare_worlds(ctx, rep, t, D, va, vb, na, nb, upa, upb, cfg, uc, A,
     if amp_bad:
       ctx.ev('d_invariant_update', 'vacuous')
       continue
-    _close(ctx, 'd_invariant_update', rep, t, D, i, 'update', x, y, 5e-3, np)
+    _close(ctx, 'd_invariant_update', rep, t, D, i, 'update', x, y,
+           5e-3 + (1.5 / 127 if cfg.get('best_effort_memory_usage_reduction')
+                   and len(leaf['shape']) > 1 else 0.0), np)
 
 
 def _close(ctx, oracle, rep, t, D, i, what, x, y, rel, np):
